@@ -265,6 +265,15 @@ class World:
             self.removed = [x for x in self.removed if x is not ent[0]]
         return out
 
+    def do_rm_stale(self, op):
+        """rm() is given the object an earlier removal took out of the Gfa (a line carrying its name may be back)"""
+        hs = getattr(self, "rm_handles", [])
+        ent = hs[op["rmidx"]] if op["rmidx"] < len(hs) else None
+        if ent is None or ent[0].is_connected():
+            self.st.count("op.skipped")
+            return core.Outcome(True, "skipped")
+        return core.call(self.gfa.rm, ent[0])
+
     def _do_rm(self, op):
         how = op.get("how", "rm")
         if how == "rm" and "id" in op:
